@@ -12,6 +12,7 @@ import bisect, hashlib, json, os, random, re, time, copy, shutil, subprocess, sy
 from concurrent.futures import ThreadPoolExecutor
 import vcommon as V
 
+READY = True
 PROPS = {
  'C14': dict(level='model_checking', design='DESIGN.md 6 C14',
    text='HintFile.tla states the hint-file property declaratively (Sorted, LookupSpec, MergeSpec, CollisionsSpec) and '
